@@ -306,3 +306,607 @@ mod net {
         }
     }
 }
+
+/// C17: a challenge is accepted at most once — also when the node could not send its own answer after verifying the response (auditor's scenario, round 5; its own recording InterfaceIO)
+#[allow(dead_code, unused)]
+mod audit_f17_twice {
+    #[allow(unused_imports)] use crate::core::io::network::*;
+    #[allow(unused_imports)] use crate::core::util::configuration::Configuration;
+    #[allow(unused_imports)] use std::io::{Error, ErrorKind};
+    #[allow(unused_imports)] use std::sync::Arc;
+    #[allow(unused_imports)] use log::{debug, error, info, trace, warn};
+    #[allow(unused_imports)] use tokio::sync::RwLock;
+    #[allow(unused_imports)] use crate::core::consensus::block::Block;
+    #[allow(unused_imports)] use crate::core::consensus::blockchain::Blockchain;
+    #[allow(unused_imports)] use crate::core::consensus::mempool::Mempool;
+    #[allow(unused_imports)] use crate::core::consensus::peers::peer::{Peer, PeerStatus};
+    #[allow(unused_imports)] use crate::core::consensus::peers::peer_collection::PeerCollection;
+    #[allow(unused_imports)] use crate::core::consensus::transaction::{Transaction, TransactionType};
+    #[allow(unused_imports)] use crate::core::consensus::wallet::Wallet;
+    #[allow(unused_imports)] use crate::core::defs::{BlockId, PeerIndex, PrintForLog, SaitoHash, SaitoPublicKey, Timestamp};
+    #[allow(unused_imports)] use crate::core::io::interface_io::{InterfaceEvent, InterfaceIO};
+    #[allow(unused_imports)] use crate::core::msg::block_request::BlockchainRequest;
+    #[allow(unused_imports)] use crate::core::msg::handshake::{HandshakeChallenge, HandshakeResponse};
+    #[allow(unused_imports)] use crate::core::msg::message::Message;
+    #[allow(unused_imports)] use crate::core::process::keep_time::Timer;
+    #[allow(unused_imports)] use crate::core::process::version::Version;
+    use crate::core::util::crypto::generate_keys;
+    use crate::core::util::test::node_tester::test::{TestConfiguration, TestTimeKeeper};
+    use std::sync::atomic::{AtomicBool, Ordering as AtomicOrdering};
+    use std::sync::Mutex;
+
+    /// io layer of one node under test: records what the node sends and whom it disconnects, can fail sends
+    #[derive(Clone, Debug, Default)]
+    struct AuditIo {
+        sent: Arc<Mutex<Vec<(u64, Vec<u8>)>>>,
+        disconnected: Arc<Mutex<Vec<u64>>>,
+        fail_sends: Arc<AtomicBool>,
+        events: Arc<Mutex<Vec<String>>>,
+    }
+
+    #[async_trait::async_trait]
+    impl InterfaceIO for AuditIo {
+        async fn send_message(&self, peer_index: u64, buffer: &[u8]) -> Result<(), Error> {
+            if self.fail_sends.load(AtomicOrdering::SeqCst) {
+                return Err(Error::from(ErrorKind::BrokenPipe));
+            }
+            self.sent.lock().unwrap().push((peer_index, buffer.to_vec()));
+            Ok(())
+        }
+        async fn send_message_to_all(&self, _b: &[u8], _e: Vec<u64>) -> Result<(), Error> {
+            Ok(())
+        }
+        async fn connect_to_peer(&mut self, _url: String, _p: PeerIndex) -> Result<(), Error> {
+            Ok(())
+        }
+        async fn disconnect_from_peer(&self, peer_index: u64) -> Result<(), Error> {
+            self.disconnected.lock().unwrap().push(peer_index);
+            Ok(())
+        }
+        async fn fetch_block_from_peer(
+            &self,
+            _h: SaitoHash,
+            _p: u64,
+            _u: &str,
+            _i: BlockId,
+        ) -> Result<(), Error> {
+            Ok(())
+        }
+        async fn write_value(&self, _k: &str, _v: &[u8]) -> Result<(), Error> {
+            Ok(())
+        }
+        async fn append_value(&mut self, _k: &str, _v: &[u8]) -> Result<(), Error> {
+            Ok(())
+        }
+        async fn flush_data(&mut self, _k: &str) -> Result<(), Error> {
+            Ok(())
+        }
+        async fn read_value(&self, _k: &str) -> Result<Vec<u8>, Error> {
+            Err(Error::from(ErrorKind::NotFound))
+        }
+        async fn load_block_file_list(&self) -> Result<Vec<String>, Error> {
+            Ok(vec![])
+        }
+        async fn is_existing_file(&self, _k: &str) -> bool {
+            false
+        }
+        async fn remove_value(&self, _k: &str) -> Result<(), Error> {
+            Ok(())
+        }
+        fn get_block_dir(&self) -> String {
+            "./data/blocks/".to_string()
+        }
+        fn get_checkpoint_dir(&self) -> String {
+            "./data/checkpoints/".to_string()
+        }
+        fn ensure_block_directory_exists(&self, _d: &str) -> Result<(), Error> {
+            Ok(())
+        }
+        async fn process_api_call(&self, _b: Vec<u8>, _m: u32, _p: PeerIndex) {}
+        async fn process_api_success(&self, _b: Vec<u8>, _m: u32, _p: PeerIndex) {}
+        async fn process_api_error(&self, _b: Vec<u8>, _m: u32, _p: PeerIndex) {}
+        fn send_interface_event(&self, event: InterfaceEvent) {
+            let text = match event {
+                InterfaceEvent::PeerHandshakeComplete(index) => format!("PeerHandshakeComplete({})", index),
+                InterfaceEvent::PeerConnected(index) => format!("PeerConnected({})", index),
+                InterfaceEvent::PeerConnectionDropped(index, _) => format!("PeerConnectionDropped({})", index),
+                _ => "other".to_string(),
+            };
+            self.events.lock().unwrap().push(text);
+        }
+        async fn save_wallet(&self, _w: &mut Wallet) -> Result<(), Error> {
+            Ok(())
+        }
+        async fn load_wallet(&self, _w: &mut Wallet) -> Result<(), Error> {
+            Ok(())
+        }
+        fn get_my_services(&self) -> Vec<crate::core::consensus::peers::peer_service::PeerService> {
+            vec![]
+        }
+    }
+
+    /// one honest node: the real Network over the recording io layer, with its own wallet key
+    struct AuditNode {
+        network: Network,
+        io: AuditIo,
+        wallet_lock: Arc<RwLock<Wallet>>,
+        blockchain_lock: Arc<RwLock<Blockchain>>,
+        config_lock: Arc<RwLock<dyn Configuration + Send + Sync>>,
+        public_key: SaitoPublicKey,
+    }
+
+    fn audit_node() -> AuditNode {
+        let keys = generate_keys();
+        let wallet_lock = Arc::new(RwLock::new(Wallet::new(keys.1, keys.0)));
+        let blockchain_lock = Arc::new(RwLock::new(Blockchain::new(wallet_lock.clone(), 100, 0, 60)));
+        let config_lock: Arc<RwLock<dyn Configuration + Send + Sync>> =
+            Arc::new(RwLock::new(TestConfiguration::default()));
+        let io = AuditIo::default();
+        let network = Network::new(
+            Box::new(io.clone()),
+            Arc::new(RwLock::new(PeerCollection::default())),
+            wallet_lock.clone(),
+            config_lock.clone(),
+            Timer {
+                time_reader: Arc::new(TestTimeKeeper {}),
+                hasten_multiplier: 1,
+                start_time: 0,
+            },
+        );
+        AuditNode {
+            network,
+            io,
+            wallet_lock,
+            blockchain_lock,
+            config_lock,
+            public_key: keys.0,
+        }
+    }
+
+    /// the oldest not yet taken message the node has sent on the connection `peer_index` (raw wire bytes)
+    fn audit_take(node: &AuditNode, peer_index: u64) -> Vec<u8> {
+        let mut sent = node.io.sent.lock().unwrap();
+        let position = sent
+            .iter()
+            .position(|(index, _)| *index == peer_index)
+            .expect("the node has sent nothing on this connection");
+        sent.remove(position).1
+    }
+
+    /// hands wire bytes to the node as arriving on connection `peer_index`, the way RoutingThread dispatches them
+    async fn audit_deliver(node: &mut AuditNode, peer_index: u64, buffer: Vec<u8>) {
+        match Message::deserialize(buffer).expect("wire bytes parse") {
+            Message::HandshakeChallenge(challenge) => {
+                node.network
+                    .handle_handshake_challenge(
+                        peer_index,
+                        challenge,
+                        node.wallet_lock.clone(),
+                        node.config_lock.clone(),
+                    )
+                    .await
+            }
+            Message::HandshakeResponse(response) => {
+                node.network
+                    .handle_handshake_response(
+                        peer_index,
+                        response,
+                        node.wallet_lock.clone(),
+                        node.blockchain_lock.clone(),
+                        node.config_lock.clone(),
+                    )
+                    .await
+            }
+            _ => panic!("only handshake messages are delivered in this demo"),
+        }
+    }
+
+    async fn audit_is_connected_under(node: &AuditNode, peer_index: u64, key: &SaitoPublicKey) -> bool {
+        let peers = node.network.peer_lock.read().await;
+        match peers.find_peer_by_index(peer_index) {
+            Some(peer) => {
+                matches!(peer.peer_status, PeerStatus::Connected) && peer.public_key == Some(*key)
+            }
+            None => false,
+        }
+    }
+
+    async fn audit_entry_of(node: &AuditNode, key: &SaitoPublicKey) -> Option<u64> {
+        node.network.peer_lock.read().await.address_to_peers.get(key).copied()
+    }
+
+    /// honest handshake: `client` dials `server`; connection index `client_index` at the client (a static peer there),
+    /// `server_index` at the server (an incoming connection there). returns the client's first response as seen on the wire
+    async fn audit_honest_handshake(
+        client: &mut AuditNode,
+        client_index: u64,
+        server: &mut AuditNode,
+        server_index: u64,
+    ) -> Vec<u8> {
+        {
+            let mut peers = client.network.peer_lock.write().await;
+            let mut peer = Peer::new(client_index);
+            peer.static_peer_config = Some(crate::core::util::configuration::PeerConfig {
+                host: "server".to_string(),
+                port: 12101,
+                protocol: "http".to_string(),
+                synctype: "full".to_string(),
+            });
+            peers.index_to_peers.insert(client_index, peer);
+        }
+        client.network.handle_new_peer(client_index, None).await;
+        server.network.handle_new_peer(server_index, None).await;
+        let challenge = audit_take(server, server_index);
+        audit_deliver(client, client_index, challenge).await;
+        let first_response = audit_take(client, client_index);
+        audit_deliver(server, server_index, first_response.clone()).await;
+        let second_response = audit_take(server, server_index);
+        audit_deliver(client, client_index, second_response).await;
+        first_response
+    }
+
+    /// C17: "each challenge is accepted at most once". The outstanding challenge is cleared only at the very end
+    /// of Peer::handle_handshake_response, after the send of the second response; when that send fails the function
+    /// leaves early with the peer already marked Connected and the challenge still outstanding.
+    #[tokio::test]
+    async fn response_is_not_accepted_twice_after_a_failed_send() {
+        use crate::core::util::crypto::sign;
+
+        let mut a = audit_node();
+        let (remote_key, remote_private_key) = generate_keys();
+
+        a.network.handle_new_peer(2, None).await;
+        let challenge = match Message::deserialize(audit_take(&a, 2)).unwrap() {
+            Message::HandshakeChallenge(challenge) => challenge.challenge,
+            _ => panic!("node A opens with a challenge"),
+        };
+        let core_version = a.wallet_lock.read().await.core_version;
+        assert!(core_version.is_set());
+        let response_bytes = Message::HandshakeResponse(HandshakeResponse {
+            public_key: remote_key,
+            signature: sign(&challenge, &remote_private_key),
+            is_lite: false,
+            block_fetch_url: "".to_string(),
+            challenge: [7; 32],
+            services: vec![],
+            wallet_version: Default::default(),
+            core_version,
+        })
+        .serialize();
+
+        // control: without a fault the challenge is consumed by its first acceptance. another remote key answers
+        // the challenge of connection 4 and the identical bytes are delivered twice: one PeerConnected(4), not two
+        {
+            let (control_key, control_private_key) = generate_keys();
+            a.network.handle_new_peer(4, None).await;
+            let control_challenge = match Message::deserialize(audit_take(&a, 4)).unwrap() {
+                Message::HandshakeChallenge(challenge) => challenge.challenge,
+                _ => panic!("node A opens with a challenge"),
+            };
+            let control_bytes = Message::HandshakeResponse(HandshakeResponse {
+                public_key: control_key,
+                signature: sign(&control_challenge, &control_private_key),
+                is_lite: false,
+                block_fetch_url: "".to_string(),
+                challenge: [8; 32],
+                services: vec![],
+                wallet_version: Default::default(),
+                core_version,
+            })
+            .serialize();
+            audit_deliver(&mut a, 4, control_bytes.clone()).await;
+            assert_eq!(audit_entry_of(&a, &control_key).await, Some(4));
+            audit_deliver(&mut a, 4, control_bytes).await;
+            let connected_events = a.io.events.lock().unwrap().iter().filter(|e| *e == "PeerConnected(4)").count();
+            assert_eq!(connected_events, 1);
+            a.io.disconnected.lock().unwrap().clear();
+        }
+
+        // first delivery: the answer is valid, but the connection breaks while node A sends its own response
+        a.io.fail_sends.store(true, AtomicOrdering::SeqCst);
+        audit_deliver(&mut a, 2, response_bytes.clone()).await;
+        a.io.fail_sends.store(false, AtomicOrdering::SeqCst);
+        // Network treated the handshake as failed: it dropped the connection and registered nothing
+        assert_eq!(a.io.disconnected.lock().unwrap().as_slice(), &[2]);
+        assert_eq!(audit_entry_of(&a, &remote_key).await, None);
+        let (status_after_failure, outstanding_after_failure) = {
+            let peers = a.network.peer_lock.read().await;
+            let peer = peers.find_peer_by_index(2).unwrap();
+            (peer.peer_status.clone(), peer.challenge_for_peer)
+        };
+
+        assert!(!a.io.events.lock().unwrap().iter().any(|e| e == "PeerConnected(2)"));
+
+        // second delivery of the identical bytes (a replay: the remote side signs nothing new)
+        audit_deliver(&mut a, 2, response_bytes).await;
+        let entry = audit_entry_of(&a, &remote_key).await;
+        let connected_now = a.io.events.lock().unwrap().iter().any(|e| e == "PeerConnected(2)");
+        assert!(
+            entry.is_none() && !connected_now,
+            "the response to challenge {:?}.. was accepted a second time: after the first delivery was aborted (send \
+             failed, Network disconnected peer 2, peer left with status {:?} and outstanding challenge {:?}) the \
+             replay of the identical bytes registered address_to_peers[K] = {:?} and raised PeerConnected; a \
+             challenge must be consumed by its first acceptance",
+            &challenge[0..4],
+            status_after_failure,
+            outstanding_after_failure.map(|c| c[0..4].to_vec()),
+            entry
+        );
+    }
+}
+
+
+/// C17: unsolicited responses never disturb an existing authenticated peer — not the one they arrive on either (auditor's scenario, round 5; its own recording InterfaceIO)
+#[allow(dead_code, unused)]
+mod audit_f17_unsolicited {
+    #[allow(unused_imports)] use crate::core::io::network::*;
+    #[allow(unused_imports)] use crate::core::util::configuration::Configuration;
+    #[allow(unused_imports)] use std::io::{Error, ErrorKind};
+    #[allow(unused_imports)] use std::sync::Arc;
+    #[allow(unused_imports)] use log::{debug, error, info, trace, warn};
+    #[allow(unused_imports)] use tokio::sync::RwLock;
+    #[allow(unused_imports)] use crate::core::consensus::block::Block;
+    #[allow(unused_imports)] use crate::core::consensus::blockchain::Blockchain;
+    #[allow(unused_imports)] use crate::core::consensus::mempool::Mempool;
+    #[allow(unused_imports)] use crate::core::consensus::peers::peer::{Peer, PeerStatus};
+    #[allow(unused_imports)] use crate::core::consensus::peers::peer_collection::PeerCollection;
+    #[allow(unused_imports)] use crate::core::consensus::transaction::{Transaction, TransactionType};
+    #[allow(unused_imports)] use crate::core::consensus::wallet::Wallet;
+    #[allow(unused_imports)] use crate::core::defs::{BlockId, PeerIndex, PrintForLog, SaitoHash, SaitoPublicKey, Timestamp};
+    #[allow(unused_imports)] use crate::core::io::interface_io::{InterfaceEvent, InterfaceIO};
+    #[allow(unused_imports)] use crate::core::msg::block_request::BlockchainRequest;
+    #[allow(unused_imports)] use crate::core::msg::handshake::{HandshakeChallenge, HandshakeResponse};
+    #[allow(unused_imports)] use crate::core::msg::message::Message;
+    #[allow(unused_imports)] use crate::core::process::keep_time::Timer;
+    #[allow(unused_imports)] use crate::core::process::version::Version;
+    use crate::core::util::crypto::generate_keys;
+    use crate::core::util::test::node_tester::test::{TestConfiguration, TestTimeKeeper};
+    use std::sync::atomic::{AtomicBool, Ordering as AtomicOrdering};
+    use std::sync::Mutex;
+
+    /// io layer of one node under test: records what the node sends and whom it disconnects, can fail sends
+    #[derive(Clone, Debug, Default)]
+    struct AuditIo {
+        sent: Arc<Mutex<Vec<(u64, Vec<u8>)>>>,
+        disconnected: Arc<Mutex<Vec<u64>>>,
+        fail_sends: Arc<AtomicBool>,
+        events: Arc<Mutex<Vec<String>>>,
+    }
+
+    #[async_trait::async_trait]
+    impl InterfaceIO for AuditIo {
+        async fn send_message(&self, peer_index: u64, buffer: &[u8]) -> Result<(), Error> {
+            if self.fail_sends.load(AtomicOrdering::SeqCst) {
+                return Err(Error::from(ErrorKind::BrokenPipe));
+            }
+            self.sent.lock().unwrap().push((peer_index, buffer.to_vec()));
+            Ok(())
+        }
+        async fn send_message_to_all(&self, _b: &[u8], _e: Vec<u64>) -> Result<(), Error> {
+            Ok(())
+        }
+        async fn connect_to_peer(&mut self, _url: String, _p: PeerIndex) -> Result<(), Error> {
+            Ok(())
+        }
+        async fn disconnect_from_peer(&self, peer_index: u64) -> Result<(), Error> {
+            self.disconnected.lock().unwrap().push(peer_index);
+            Ok(())
+        }
+        async fn fetch_block_from_peer(
+            &self,
+            _h: SaitoHash,
+            _p: u64,
+            _u: &str,
+            _i: BlockId,
+        ) -> Result<(), Error> {
+            Ok(())
+        }
+        async fn write_value(&self, _k: &str, _v: &[u8]) -> Result<(), Error> {
+            Ok(())
+        }
+        async fn append_value(&mut self, _k: &str, _v: &[u8]) -> Result<(), Error> {
+            Ok(())
+        }
+        async fn flush_data(&mut self, _k: &str) -> Result<(), Error> {
+            Ok(())
+        }
+        async fn read_value(&self, _k: &str) -> Result<Vec<u8>, Error> {
+            Err(Error::from(ErrorKind::NotFound))
+        }
+        async fn load_block_file_list(&self) -> Result<Vec<String>, Error> {
+            Ok(vec![])
+        }
+        async fn is_existing_file(&self, _k: &str) -> bool {
+            false
+        }
+        async fn remove_value(&self, _k: &str) -> Result<(), Error> {
+            Ok(())
+        }
+        fn get_block_dir(&self) -> String {
+            "./data/blocks/".to_string()
+        }
+        fn get_checkpoint_dir(&self) -> String {
+            "./data/checkpoints/".to_string()
+        }
+        fn ensure_block_directory_exists(&self, _d: &str) -> Result<(), Error> {
+            Ok(())
+        }
+        async fn process_api_call(&self, _b: Vec<u8>, _m: u32, _p: PeerIndex) {}
+        async fn process_api_success(&self, _b: Vec<u8>, _m: u32, _p: PeerIndex) {}
+        async fn process_api_error(&self, _b: Vec<u8>, _m: u32, _p: PeerIndex) {}
+        fn send_interface_event(&self, event: InterfaceEvent) {
+            let text = match event {
+                InterfaceEvent::PeerHandshakeComplete(index) => format!("PeerHandshakeComplete({})", index),
+                InterfaceEvent::PeerConnected(index) => format!("PeerConnected({})", index),
+                InterfaceEvent::PeerConnectionDropped(index, _) => format!("PeerConnectionDropped({})", index),
+                _ => "other".to_string(),
+            };
+            self.events.lock().unwrap().push(text);
+        }
+        async fn save_wallet(&self, _w: &mut Wallet) -> Result<(), Error> {
+            Ok(())
+        }
+        async fn load_wallet(&self, _w: &mut Wallet) -> Result<(), Error> {
+            Ok(())
+        }
+        fn get_my_services(&self) -> Vec<crate::core::consensus::peers::peer_service::PeerService> {
+            vec![]
+        }
+    }
+
+    /// one honest node: the real Network over the recording io layer, with its own wallet key
+    struct AuditNode {
+        network: Network,
+        io: AuditIo,
+        wallet_lock: Arc<RwLock<Wallet>>,
+        blockchain_lock: Arc<RwLock<Blockchain>>,
+        config_lock: Arc<RwLock<dyn Configuration + Send + Sync>>,
+        public_key: SaitoPublicKey,
+    }
+
+    fn audit_node() -> AuditNode {
+        let keys = generate_keys();
+        let wallet_lock = Arc::new(RwLock::new(Wallet::new(keys.1, keys.0)));
+        let blockchain_lock = Arc::new(RwLock::new(Blockchain::new(wallet_lock.clone(), 100, 0, 60)));
+        let config_lock: Arc<RwLock<dyn Configuration + Send + Sync>> =
+            Arc::new(RwLock::new(TestConfiguration::default()));
+        let io = AuditIo::default();
+        let network = Network::new(
+            Box::new(io.clone()),
+            Arc::new(RwLock::new(PeerCollection::default())),
+            wallet_lock.clone(),
+            config_lock.clone(),
+            Timer {
+                time_reader: Arc::new(TestTimeKeeper {}),
+                hasten_multiplier: 1,
+                start_time: 0,
+            },
+        );
+        AuditNode {
+            network,
+            io,
+            wallet_lock,
+            blockchain_lock,
+            config_lock,
+            public_key: keys.0,
+        }
+    }
+
+    /// the oldest not yet taken message the node has sent on the connection `peer_index` (raw wire bytes)
+    fn audit_take(node: &AuditNode, peer_index: u64) -> Vec<u8> {
+        let mut sent = node.io.sent.lock().unwrap();
+        let position = sent
+            .iter()
+            .position(|(index, _)| *index == peer_index)
+            .expect("the node has sent nothing on this connection");
+        sent.remove(position).1
+    }
+
+    /// hands wire bytes to the node as arriving on connection `peer_index`, the way RoutingThread dispatches them
+    async fn audit_deliver(node: &mut AuditNode, peer_index: u64, buffer: Vec<u8>) {
+        match Message::deserialize(buffer).expect("wire bytes parse") {
+            Message::HandshakeChallenge(challenge) => {
+                node.network
+                    .handle_handshake_challenge(
+                        peer_index,
+                        challenge,
+                        node.wallet_lock.clone(),
+                        node.config_lock.clone(),
+                    )
+                    .await
+            }
+            Message::HandshakeResponse(response) => {
+                node.network
+                    .handle_handshake_response(
+                        peer_index,
+                        response,
+                        node.wallet_lock.clone(),
+                        node.blockchain_lock.clone(),
+                        node.config_lock.clone(),
+                    )
+                    .await
+            }
+            _ => panic!("only handshake messages are delivered in this demo"),
+        }
+    }
+
+    async fn audit_is_connected_under(node: &AuditNode, peer_index: u64, key: &SaitoPublicKey) -> bool {
+        let peers = node.network.peer_lock.read().await;
+        match peers.find_peer_by_index(peer_index) {
+            Some(peer) => {
+                matches!(peer.peer_status, PeerStatus::Connected) && peer.public_key == Some(*key)
+            }
+            None => false,
+        }
+    }
+
+    async fn audit_entry_of(node: &AuditNode, key: &SaitoPublicKey) -> Option<u64> {
+        node.network.peer_lock.read().await.address_to_peers.get(key).copied()
+    }
+
+    /// honest handshake: `client` dials `server`; connection index `client_index` at the client (a static peer there),
+    /// `server_index` at the server (an incoming connection there). returns the client's first response as seen on the wire
+    async fn audit_honest_handshake(
+        client: &mut AuditNode,
+        client_index: u64,
+        server: &mut AuditNode,
+        server_index: u64,
+    ) -> Vec<u8> {
+        {
+            let mut peers = client.network.peer_lock.write().await;
+            let mut peer = Peer::new(client_index);
+            peer.static_peer_config = Some(crate::core::util::configuration::PeerConfig {
+                host: "server".to_string(),
+                port: 12101,
+                protocol: "http".to_string(),
+                synctype: "full".to_string(),
+            });
+            peers.index_to_peers.insert(client_index, peer);
+        }
+        client.network.handle_new_peer(client_index, None).await;
+        server.network.handle_new_peer(server_index, None).await;
+        let challenge = audit_take(server, server_index);
+        audit_deliver(client, client_index, challenge).await;
+        let first_response = audit_take(client, client_index);
+        audit_deliver(server, server_index, first_response.clone()).await;
+        let second_response = audit_take(server, server_index);
+        audit_deliver(client, client_index, second_response).await;
+        first_response
+    }
+
+    /// C17: "unsolicited responses ... never disturb an existing authenticated peer with the same key". Every refusal
+    /// in Peer::handle_handshake_response calls mark_as_disconnected on the peer the message arrived for, also when
+    /// that peer has completed its handshake and has no challenge outstanding.
+    #[tokio::test]
+    async fn replayed_response_leaves_the_authenticated_peer_alone() {
+        let mut a = audit_node();
+        let mut v = audit_node();
+
+        let observed_first_response_of_v = audit_honest_handshake(&mut v, 1, &mut a, 1).await;
+        assert!(audit_is_connected_under(&a, 1, &v.public_key).await);
+        assert_eq!(audit_entry_of(&a, &v.public_key).await, Some(1));
+        assert!(a.io.disconnected.lock().unwrap().is_empty());
+
+        // control: replayed on a fresh connection 3 the old response is refused and the peer of V is left alone
+        a.network.handle_new_peer(3, None).await;
+        audit_deliver(&mut a, 3, observed_first_response_of_v.clone()).await;
+        assert!(!audit_is_connected_under(&a, 3, &v.public_key).await);
+        assert!(audit_is_connected_under(&a, 1, &v.public_key).await);
+
+        // the same observed bytes replayed into the established connection 1 (no challenge is outstanding there)
+        audit_deliver(&mut a, 1, observed_first_response_of_v).await;
+        let still_connected = audit_is_connected_under(&a, 1, &v.public_key).await;
+        let status = a.network.peer_lock.read().await.find_peer_by_index(1).unwrap().peer_status.clone();
+        assert!(
+            still_connected,
+            "an unsolicited (replayed, already consumed) handshake response delivered on connection 1 turned the \
+             authenticated peer of V from Connected into {:?} and made node A drop the connection (disconnect calls: \
+             {:?}), while address_to_peers[V] still names peer {:?}: a response that is refused must not change the \
+             state of the peer that is authenticated under that key",
+            status,
+            a.io.disconnected.lock().unwrap(),
+            audit_entry_of(&a, &v.public_key).await
+        );
+    }
+}
+
